@@ -4,6 +4,14 @@ import json, os
 V = os.path.dirname(os.path.dirname(os.path.abspath(__file__)))
 
 CHECKS = {
+    'C12': ('hole-provenance / predicate-agreement rules on the OverrideConstants templates and the entry helpers (syn-based abstract interpreter)',
+            'Structural clauses: one field per override (unfiltered), name identity, scalar type table; Option<..>, the required list and the optional-insert list are all decided by the same atom init.is_some() with the right polarity; key = @id.to_string() else name for both lists; bool -> if x {1.0} else {0.0}, other scalars -> x as f64 with x the same override\'s field; map = required entries + optional inserts, returned; helper parameter / overrides.constants() / struct emission all iff the module has overrides (evaluated on all combinations); vertex_state/fragment_state forward &entry.constants.',
+            'Trusted: Engine A semantics; naga\'s override resolution (keys by decimal id or name, f64 values).',
+            'DESIGN.md section 3 C12'),
+    'C13': ('hole-provenance rules on the push-constant range template and its wiring (syn-based abstract interpreter)',
+            'Structural clauses: range is `PushConstantRange { stages: PUSH_CONSTANT_STAGES, range: 0..n }` with n the unmodified byte size of the type of the global selected by space == PushConstant; stage set = map.get(name of that global) else entry stages, printed by quote_shader_stages; range and constant are the two halves of one Option under one condition; single optional range hole; the map is the stage walker\'s map (C03) and the fallback the union of the 3-row stage table over all entry points.',
+            'Trusted: Engine A semantics; naga sizes; C03 rules for the content of the stage map.',
+            'DESIGN.md section 3 C13'),
     'C07': ('hole-provenance rules on the vertex attribute / buffer-layout templates + exhaustive vertex-format table lookup + sort-then-dedup discipline',
             'Structural clauses: one attribute per Binding::Location member of the argument struct (builtins skipped, no other filter), location/offset_of!/format all from the same member, count = length of the same list, impl/stride/attributes name the struct itself; the format table is looked up on all 16 reachable (scalar kind, width, component count) points; impl blocks once per struct (sort(key) then dedup(same key), unfiltered); per-entry helper lists one layout per struct argument in argument order with step-mode parameters declared by the same iteration and N = length of the same list.',
             'Trusted: Engine A semantics; wgpu-core format semantics by name; rustc offset_of!/size_of with repr(C). Direct @location parameters are outside the property\'s domain.',
